@@ -24,6 +24,12 @@ namespace cnl::_impl {
         static constexpr int radix = Radix;
     };
 
+    // headroom the significand needs before it is multiplied:
+    // by OutRadix when scaling down, by InRadix (which may be the larger) when scaling up
+    template<int InExponent, int InRadix, int OutRadix>
+    inline constexpr int descale_headroom_radix =
+            (InExponent > 0 && InRadix > OutRadix) ? InRadix : OutRadix;
+
     template<
             integer Significand = std::int64_t, int OutRadix = 10,
             bool Precise = false,
@@ -41,13 +47,13 @@ namespace cnl::_impl {
                 (input < Rep{0})
                 ? []([[maybe_unused]] Significand const& n) -> bool {
                       if constexpr (numbers::signedness_v<Significand>) {
-                          return n < -std::numeric_limits<Significand>::max() / OutRadix;
+                          return n < -std::numeric_limits<Significand>::max() / descale_headroom_radix<InExponent, InRadix, OutRadix>;
                       } else {
                           return unreachable<bool>("negative unsigned integer");
                       }
                   }
                 : [](Significand const& n) {
-                      return n > Significand{std::numeric_limits<Significand>::max() / OutRadix};
+                      return n > Significand{std::numeric_limits<Significand>::max() / descale_headroom_radix<InExponent, InRadix, OutRadix>};
                   }};
 
         if constexpr (InExponent < 0) {
